@@ -296,9 +296,17 @@ def run_inv(W, cfg):
                 pass
             if not _np.all(_np.diff(_np.asarray(s.wave, dtype=float)) > 0) or len(s.wave) != len(s.value):
                 return False
+        # appending fractional wavelengths / values to a spectrum held in this dtype keeps every sample as it is
+        for cp in (False, True):
+            head = R.Spectrum(_np.array([1, 2, 3], dtype=dt), _np.array([2, 3, 4], dtype=dt))
+            tail = R.Spectrum(_np.array([4.5, 5.5]), _np.array([0.25, 1.5]))
+            r_ = head.append(tail, copy=cp)
+            tgt = r_ if cp else head
+            if list(_np.asarray(tgt.wave, dtype=float)) != [1.0, 2.0, 3.0, 4.5, 5.5] or list(_np.asarray(tgt.value, dtype=float)) != [2.0, 3.0, 4.0, 0.25, 1.5]:
+                return False
         good = R.Spectrum(_np.array([3, 5, 9], dtype=dt), [1.0, 2.0, 3.0])
         return list(_np.asarray(good.wave, dtype=float)) == [3.0, 5.0, 9.0]
-    W.ob_concrete('a wavelength grid that is not strictly increasing is refused by the constructor and by resample, whatever its dtype', ok)
+    W.ob_concrete('a wavelength grid that is not strictly increasing is refused by the constructor and by resample, and append keeps every sample, whatever the dtype', ok)
     x = W.real('unused')
     W.ob('anchor', x * 1, x)
 
